@@ -43,6 +43,8 @@ THEOREMS = [
     "MjProof.C17.floodFill_stack_bound",
 ]
 
+USES_GEN = False   # nothing under lean/MjProof/Gen is used: runs against a scratch worktree need no exclusive lock
+
 CONTACT_TYPES = (5, 6, 7)
 
 
